@@ -265,8 +265,8 @@ def r2_header_bounds(ctx):
         r.check(n_checks >= 7, 'headers|check-size-instances', ld.file, 'check_size! is expanded for the field path and each of the six pseudo paths (%d abuse comparisons)' % n_checks)
 
 
-def r6_pending_accept(ctx):
-    r = ctx.rule('C18.R6', 'PAIR', 'pending-accept resets: increment behind is_pending_accept, decrement when the reset stream is accepted')
+def r6_pending_accept(ctx, rid='C18.R6', text=None):
+    r = ctx.rule(rid, 'PAIR', text or 'pending-accept resets: increment behind is_pending_accept, decrement when the reset stream is accepted')
     F = ctx.facts
     rr = r.fn(P + 'recv::Recv::recv_reset')
     if rr:
